@@ -347,8 +347,11 @@ impl<T> Drop for Vec<T> {
         for (i, bucket) in self.buckets.iter_mut().enumerate() {
             let entries = *bucket.entries.get_mut();
 
+            // a later bucket can be allocated while an earlier one never was
+            // (indices reserved by a batch whose iterator yielded too few items
+            // or whose fill callback panicked are never written)
             if entries.is_null() {
-                break;
+                continue;
             }
 
             let len = Location::bucket_len(i as u32);
